@@ -80,7 +80,7 @@ def rule_calls(ctx: Ctx):
                       "the initial-state check precedes the reachability check that starts from it", fn.key, f"order: {called}")
     rep.floor("C09.calls", "concrete paths of _check", n, 1)
     init = ctx.fn(f"{META}.__init__")
-    for p in ctx.paths(init, inline=None, exc_edges="none"):
+    for p in ctx.paths(init, inline=None, exc_edges="none", comps_for_loops=True):
         names = [e.term.func.attr for e in p.calls() if isinstance(e.term.func, ast.Attribute) and show(e.term.func.value) == "cls"]
         need = ["add_inherited", "add_from_attributes", "_update_event_references", "_check"]
         idx = [names.index(x) if x in names else -1 for x in need]
@@ -148,7 +148,7 @@ def _check_pred(ctx: Ctx, name: str, over: List[str], domains, spec, what: str, 
     fn = ctx.fn(f"{META}.{name}")
     found = False
     results = {}
-    for p in ctx.paths(fn, inline=_inline_meta, exc_edges="none"):
+    for p in ctx.paths(fn, inline=_inline_meta, exc_edges="none", comps_for_loops=True):
         e, c = _selecting_comp(ctx, p, over)
         if c is None:
             continue
@@ -171,7 +171,8 @@ def _check_pred(ctx: Ctx, name: str, over: List[str], domains, spec, what: str, 
                     rep.check(got == want, "C09.pred", e.loc(), f"{name}: {what}", fn.key, f"selects states where: {show(pred)}",
                               truth_table={str(k): v for k, v in got.items()}, atoms=sorted(domains))
                 except boolfn.Unrecognised as u:
-                    rep.unrecognised("C09.pred", e.loc(), f"{name}: predicate `{show(pred)}` uses `{u}`")
+                    # a predicate that calls a helper: read the selection as the loop it abbreviates (helpers inlined)
+                    return fn, _check_pred_loop(ctx, fn, name, over, domains, spec, what, feasible)
         # outcome by emptiness of the selection and strictness
         ph = None
         for b in p.of("branch"):
@@ -249,7 +250,7 @@ def _check_pred_loop(ctx: Ctx, fn: FuncInfo, name: str, over: List[str], domains
     rows = []
     results = {}
     where = None
-    for p in ctx.paths(fn, inline=_inline_meta, exc_edges="none", unroll=2):
+    for p in ctx.paths(fn, inline=_inline_meta, exc_edges="none", unroll=2, comps_for_loops=False, loops_for_comps=True):
         evs = p.events
         segs = _segments(p, over)
         outs = {show(e.term.func.value) for e in p.calls() if isinstance(e.term.func, ast.Attribute) and e.term.func.attr in ("append", "add")
@@ -324,7 +325,7 @@ def rule_pred(ctx: Ctx):
     fn = ctx.fn(f"{META}._check_initial_state")
     sel = None
     raising, passing = set(), set()
-    for p in ctx.paths(fn, inline=_inline_meta, exc_edges="none"):
+    for p in ctx.paths(fn, inline=_inline_meta, exc_edges="none", comps_for_loops=True):
         e, c = _selecting_comp(ctx, p, ["cls.states"])
         if c is None:
             continue
@@ -374,7 +375,7 @@ def rule_pred(ctx: Ctx):
                           feasible=lambda FINAL, REACHES_FINAL: (not FINAL) or REACHES_FINAL)
     _expect_outcomes(ctx, fn, res, strict_matters=True)
     early = False
-    for p in ctx.paths(fn, inline=_inline_meta, exc_edges="none"):
+    for p in ctx.paths(fn, inline=_inline_meta, exc_edges="none", comps_for_loops=True):
         if p.kind in ("return", "fall") and not any(e.kind in ("iter", "exhaust") for e in p.events) and _selecting_comp(ctx, p, ["cls.states"])[1] is None:
             for b in p.of("branch"):
                 if _no_final_fact(expand1(b.term, p.events), b.x["taken"]):
@@ -384,7 +385,7 @@ def rule_pred(ctx: Ctx):
     fn = ctx.fn(f"{META}._check_disconnected_state")
     seen = False
     outcomes = {}
-    for p in ctx.paths(fn, inline=_inline_meta, exc_edges="none"):
+    for p in ctx.paths(fn, inline=_inline_meta, exc_edges="none", comps_for_loops=True):
         for b in p.of("branch"):
             x = expand(b.term, p.events)
             if isinstance(x, ast.BinOp) and isinstance(x.op, ast.Sub):
